@@ -149,7 +149,7 @@ class Script(object):
 
     def __init__(self, commands=None, message=None, script_types='', is_locking=True, keys=None, signatures=None,
                  blueprint=None, env_data=None, public_hash=b'', sigs_required=None, redeemscript=b'',
-                 hash_type=SIGHASH_ALL):
+                 hash_type=SIGHASH_ALL, witver=1):
         """
         Create a Script object with specified parameters. Use parse() method to create a Script from raw hex
 
@@ -195,6 +195,8 @@ class Script(object):
         :type redeemscript: bytes, Script
         :param hash_type: Specific script hash type, default is SIGHASH_ALL
         :type hash_type: int
+        :param witver: Witness version (1..16) of the program when creating a 'p2tr' (OP_n <program>) locking script
+        :type witver: int
         """
         self.commands = commands if commands else []
         self._raw = b''
@@ -231,7 +233,7 @@ class Script(object):
                     elif tc == 'key':
                         command = self.keys
                     elif tc == 'op_n':
-                        command = [sig_n_and_m.pop() + 80]
+                        command = [(witver if st == 'p2tr' else sig_n_and_m.pop()) + 80]
                     elif tc == 'redeemscript':
                         command = [self.redeemscript]
                     elif tc in self.env_data:
